@@ -434,3 +434,120 @@ def run_marked_statements(ctx, drv, bj, sj, fail, ref_prefix, split_keep):
             if pred != got:
                 ctx.disagree("marked-statement-render", {"statement": name, "templates": tm, "render": target, "trim_blocks": trim}, pred, got)
     ctx.extra["marked_statement_cases"] = len(cases) * 2
+
+
+# ---------------------------------------------------------------------------------------------------------------------
+# line statements: a prefix that merely ENDS in `*` is not the auto-indent marker
+# ---------------------------------------------------------------------------------------------------------------------
+def has_lineprefix_wrapper(benv, tpl):
+    """does the bundled parser build a lineprefix wrapper for one of these templates"""
+    import nunavut.jinja.jinja2.nodes as nodes
+    for src in tpl.values():
+        try:
+            tree = benv.parse(src)
+        except Exception:  # noqa: BLE001
+            continue
+        if any(f.name == "lineprefix" for f in tree.find_all(nodes.Filter)):
+            return True
+    return False
+
+
+LINE_PREFIXES = [("%%", "##"), ("*", None), ("//*", "##"), ("%*", "//"), ("#", None), ("#*#", "*#"), ("*-", None), ("::", "#*")]
+
+
+def line_statement_template(rng, lsp, lcp, with_markers):
+    """a template written with line statements (if / else / for / set / include), optional markers on delimiter tags inside"""
+    cx, parts = {}, {}
+    n = [0]
+
+    def fresh(p):
+        n[0] += 1
+        return f"{p}{n[0]}"
+
+    def expr():
+        e = fresh("e")
+        cx[e] = rng.choice(VALUES)
+        star = "*" if (with_markers and rng.random() < 0.5) else ""
+        return rng.choice(BLANKS) + "{{" + star + " " + e + " }}" + rng.choice(["\n", "\n", " t\n"])
+
+    def body(depth):
+        out = ""
+        for _ in range(rng.randint(1, 3)):
+            r = rng.random()
+            if r < 0.35:
+                out += expr()
+            elif r < 0.55:
+                out += rng.choice(["ab", "c d", "x:", "z;"]) + "\n"
+            elif r < 0.65 and lcp:
+                out += rng.choice(["k ", ""]) + lcp + " a comment\n"
+            elif r < 0.72:
+                out += rng.choice(BLANKS) + lsp + " set " + fresh("z") + " = 1\n"
+            elif depth < 2 and r < 0.88:
+                c = fresh("c")
+                cx[c] = rng.random() < 0.7
+                out += rng.choice(BLANKS) + lsp + " if " + c + rng.choice(["", "  "]) + "\n" + body(depth + 1)
+                if rng.random() < 0.4:
+                    out += rng.choice(BLANKS) + lsp + " else\n" + body(depth + 1)
+                out += rng.choice(BLANKS) + lsp + " endif\n"
+            elif depth < 2:
+                k = fresh("n")
+                cx[k] = list(range(rng.choice([0, 1, 2])))
+                out += rng.choice(BLANKS) + lsp + " for x in " + k + "\n" + body(depth + 1) + lsp + " endfor\n"
+            else:
+                out += "w\n"
+        return out
+    return body(0) + rng.choice(["end", "end\n", ""]), cx, parts
+
+
+def run_line_statements(ctx, drv, bj, sj, variant_letter, fail):
+    import nunavut.jinja.jinja2.nodes as nodes
+    from . import c19
+    from .c19_lexer import parser_variant
+    rng = ctx.rng
+    old = "o" if parser_variant(bj) == "before-fix" else ""
+    cases = [("* for x in n1\n{{ e2 }}\n* endfor\nend", {"n1": [1, 2], "e2": "v"}, "*", None, False),
+             ("  //* if c1\n{{ e2 }}\n\n//* endif\nend", {"c1": True, "e2": "a\nb"}, "//*", None, False)]
+    per = 12 if ctx.quick else 150
+    for (lsp, lcp) in LINE_PREFIXES:
+        for i in range(per):
+            src, cx, _parts = line_statement_template(rng, lsp, lcp, with_markers=(i % 3 == 2))
+            cases.append((src, cx, lsp, lcp, i % 3 == 2))
+    reqs_t, reqs_r = [], []
+    for src, cx, lsp, lcp, _m in cases:
+        head = f"{variant_letter}00{old} {enc(lsp)} {'~' if lcp is None else enc(lcp)} 1 {enc(chr(10))} {enc(src)}"
+        reqs_t.append("tree " + head)
+        reqs_r.append("render " + head + " " + valuation(cx, {}))
+    ans_t = drv.ask(reqs_t, timeout=1500) if drv is not None else [None] * len(cases)
+    ans_r = drv.ask(reqs_r, timeout=1500) if drv is not None else [None] * len(cases)
+    for (src, cx, lsp, lcp, marked), at, ar in zip(cases, ans_t, ans_r):
+        opts = {"line_statement_prefix": lsp, "line_comment_prefix": lcp}
+        env = c19.make_env(bj, {}, opts=opts)
+        try:
+            real_tree = "ok " + canon_real(env.parse(src).body, nodes)
+        except bj.TemplateSyntaxError:
+            real_tree = "syntax-error"
+        got = c19.render(bj, {"main": src}, "main", cx, opts=opts)
+        ctx.case(("line-statement", lsp, lcp, src, json.dumps(cx, sort_keys=True)), lsp.endswith("*"))
+        ctx.count("line-statement:prefix-ends-in-star" if lsp.endswith("*") else "line-statement:other-prefix")
+        setting = {"line_statement_prefix": lsp, "line_comment_prefix": lcp}
+        if at is not None:
+            ctx.traces += 2
+            if real_tree == "syntax-error" or got[0] != "ok":
+                if at.startswith("ok"):
+                    ctx.disagree("line-statement-tree", {"source": src, **setting}, at, real_tree if real_tree == "syntax-error" else list(got))
+            else:
+                if at != real_tree:
+                    ctx.disagree("line-statement-tree", {"source": src, **setting}, at, real_tree)
+                if ar != "ok " + enc(got[1]):
+                    ctx.disagree("line-statement-render", {"source": src, **setting, "context": cx}, dec(ar[3:]) if ar.startswith("ok ") else ar, got[1])
+        # the property, sentence 1: a template that uses no marker renders as in stock Jinja2 — whatever the line statement prefix
+        if not marked:
+            st = c19.render(sj, {"main": src}, "main", cx, opts=opts)
+            if got != st and not (got[0] == "err" and st[0] == "err"):
+                wrapper = "B:" in real_tree or "E:" in real_tree
+                kind = "line-statement-prefix-star-autoindent" if (wrapper and lsp.endswith("*")) else "differs-from-stock-not-because-of-the-lexer-edit"
+                fail(ctx, {"kind": kind}, "a template without auto-indent marker, written with line statements, renders differently in the bundled engine and in stock Jinja2"
+                     + (": the parser takes the line statement for an auto-indent block because its prefix ends in '*'" if wrapper else ""),
+                     {"stream": "differential", "origin": "line-statements", "templates": {"main": src}, "main": "main", "context_json": cx, "context": {k: repr(v) for k, v in cx.items()},
+                      "trim_blocks": False, "lstrip_blocks": False, "environment_options": opts, "bundled": list(got), "stock": list(st)})
+    ctx.extra["line_statement_templates"] = len(cases)
